@@ -60,7 +60,7 @@ def jobs_for(cls, nr, nt, nsc, dirbc):
                      bounded="grid shape fixed %dx%d split %d DirBC=%d; all real data symbolic" % (nr, nt, nsc, dirbc),
                      functions=["%s::%s" % (cls, m) for m in ("buildAscCircleSection", "buildAscRadialSection", "applyAscOrthoCircleSection",
                                                                "applyAscOrthoRadialSection", "solveCircleSection", "solveRadialSection", sweep)],
-                     covers={"COVER:reached_end"}, split=r"^OBL:(residual|exact|dirichlet|coarse)|^COVER:", split_chunk=3, split_timeout=500,
+                     covers={"COVER:reached_end"}, split=r"^OBL:(residual|exact|dirichlet|coarse)|^COVER:", split_chunk=1, split_timeout=500,
                      skip_batch=(len(jobs) > 0),
                      extra=["--max-field-sensitivity-array-size", "8192"])
              j.rules, j.hashes = rules, hashes
